@@ -563,7 +563,7 @@ def guarded(run, case, fn, *args, **kw):
     try:
         return fn(*args, **kw)
     except Exception as exc:  # noqa
-        if raised_in_repo(exc):
+        if raised_in_repo(exc) or type(exc).__name__ == "CliExit":
             run.fail("impl-vs-spec", case, {"raised": repr(exc)[:300]})
             return None
         raise
